@@ -79,6 +79,20 @@ func main() {
 				controlPatch = args[i+1]
 				i++
 			}
+		case "--genforward":
+			// writes the reference table of unavoidable callees of event entry points (run on the reference tree only)
+			p, err := load.Load(repo, nil, nil)
+			if err != nil {
+				fmt.Println(err)
+				os.Exit(2)
+			}
+			n, err := rules.GenForward(p, home)
+			if err != nil {
+				fmt.Println(err)
+				os.Exit(2)
+			}
+			fmt.Printf("%d pairs written\n", n)
+			os.Exit(0)
 		case "--genknown":
 			// writes the reference function list from the current tree (run on the reference tree only)
 			p, err := load.Load(repo, nil, nil)
@@ -141,6 +155,7 @@ func main() {
 			}
 		}()
 		fn(ctx)
+		ctx.Forward(prop)
 	}()
 	extra := map[string]any{}
 	if tier == "thorough" {
@@ -258,6 +273,7 @@ func runMutate(repo, home, prop, kind, patch string, fn func(*rules.Ctx)) int {
 			}
 		}()
 		fn(ctx)
+		ctx.Forward(prop)
 	}()
 	keys := alarmKeys(home, prop, run, true)
 	note := fmt.Sprintf("files=%d edits=%d unknown=%d inlined=%d left=%d notes=%v", len(overlay), n, len(p.NewFuncs), len(p.Inlined), len(p.Skipped), p.Notes)
@@ -310,6 +326,7 @@ func runControl(repo, home, prop, patch string, fn func(*rules.Ctx)) int {
 			}
 		}()
 		fn(ctx)
+		ctx.Forward(prop)
 	}()
 	keys := alarmKeys(home, prop, run, os.Getenv("KVERIF_DEBUG") != "")
 	if os.Getenv("KVERIF_DEBUG") != "" {
